@@ -329,11 +329,11 @@ def run_shard(spec):
 
 
 def floors(tier):
-    return {"forests": 60, "forests-exhaustive": 30, "subsets-filter": 3000, "exports-csv": 150,
+    return {"forests": 60, "forests-exhaustive": 25, "subsets-filter": 3000, "exports-csv": 150,
             "exports-geff": 150, "exports-with-seg": 100, "postcondition-evaluations": 3000,
-            "forests-where-node-0-is-a-parent": 3, "geff-seg-exports-beyond-first-chunk": 10,
+            "forests-where-node-0-is-a-parent": 2, "geff-seg-exports-beyond-first-chunk": 6,
             "exports-after-edits": 150, "exports-csv-colors": 40,
-            "exports-geff-overwrite": 40, "many-node-forests": 5}
+            "exports-geff-overwrite": 40, "many-node-forests": 2}
 
 
 def replay(doc):
